@@ -196,6 +196,11 @@ func (w *World) execLongForm(stepIdx int, st *Step) {
 	w.T.Count("longform_creates", 1)
 	nkeys := len(listOf(st.Args["keys"]))
 	w.T.Mark(fmt.Sprintf("lf:%s:%d:%d:%d:%v", method, nkeys, len(doc.Service), len(aka), explicit))
+	if err != nil && strings.Contains(err.Error(), "exceeds maximum delta size") {
+		// the long-form protocol limits the delta: a document that does not fit is refused by design
+		w.T.Probe("longform_document_too_large")
+		return
+	}
 	if err != nil || res == nil || res.DIDDocument == nil {
 		w.violate("C17/create-failed", "", "VDR.Create failed on a valid document: %v", err)
 		return
@@ -395,11 +400,29 @@ func GenLongForm(seed uint64, pool *Pool) *Plan {
 		}
 		keys = append(keys, map[string]any{"id": ids[i], "type": kind.typ, "key": pool.PickOfType(r, t), "b58": kind.b58, "purposes": strList(ps)})
 	}
+	if r.Chance(1, 4) {
+		// many small keys (as many as the delta limit admits); early keys are referenced again from relationships that
+		// are processed after the later keys first appear
+		keys = nil
+		n := r.Range(6, 11)
+		for i := 0; i < n; i++ {
+			ps := []string{"authentication"}
+			if i < 3 && r.Chance(2, 3) {
+				ps = append(ps, core.Pick(r, []string{"assertionMethod", "capabilityDelegation", "capabilityInvocation"}))
+			}
+			keys = append(keys, map[string]any{"id": fmt.Sprintf("a%d", i), "type": "Ed25519VerificationKey2018", "key": pool.PickOfType(r, Ed25519), "b58": true, "purposes": strList(ps)})
+		}
+	}
 	var svcs []any
 	for _, id := range core.Subset(r, svcIDs, 1, 3) {
-		svcs = append(svcs, didGoSafe(genService(r, id)))
+		if len(keys) < 6 {
+			svcs = append(svcs, didGoSafe(genService(r, id)))
+		}
 	}
 	aka := distinctURIs(core.Subset(r, akaURIs, 1, 3))
+	if len(keys) >= 6 {
+		aka = nil
+	}
 	if len(keys) == 0 && len(svcs) == 0 {
 		svcs = append(svcs, didGoSafe(genService(r, "s1")))
 	}
